@@ -167,6 +167,25 @@ class C08(Check):
                 for key, v in vals.items():
                     o, n = key.split(".")
                     setattr(objs[o], n, v)
+                # writes that struct refuses (value outside the format) must leave the variable as it is
+                refused = 0
+                for key, v in vals.items():
+                    o, n = key.split(".")
+                    f = dict(eff[o])[n]
+                    if (case["valseed"] + len(n) + len(key)) % 3:
+                        continue
+                    if f == "x":
+                        bad = 1e15
+                    elif f in MULTI:
+                        bad = tuple(v[:-1]) + (1 << 70,)
+                    else:
+                        bad = 1 << 8 * fsize(f)
+                    try:
+                        setattr(objs[o], n, bad)
+                        raise AssertionError(f"out-of-range value {bad} accepted for {key}:{f}")
+                    except (struct.error, OverflowError):
+                        refused += 1
+                res["refused_writes"] = refused
                 res["map_in"] = bytes(e.__dict__["amap"][:])
             except Exception as ex:      # noqa
                 err = f"writing from Python raised {type(ex).__name__}: {ex}"
@@ -353,7 +372,8 @@ class C08(Check):
     def rule(self):
         return ("a base class (0-3 array-map variables) and a derived program class (1-4 more, half of the base names redefined with another scalar format), 0-2 "
                 "subprogram class pairs with 1-2 instances each; formats B H I Q b h i q x, a third of them with an explicit byte order (>h <i !q ...) (3/4) and multi-element 2H 3B HI 2I BH 2q; values incl. decimals 0.29, "
-                "0.57, -0.58 for x; 25% per-CPU maps (Python side: one blob per CPU); scalars pass Python -> program -> mirrors and program -> Python")
+                "0.57, -0.58 for x; 25% per-CPU maps (Python side: one blob per CPU); scalars pass Python -> program -> mirrors and program -> Python; a third of the variables also get a write that struct refuses "
+                "(out-of-range value), which must leave them as they are")
 
     def distribution(self, cases, observed):
         d = {"overrides": 0, "overrides_larger": 0, "subprogram_instances": 0, "percpu": 0, "multi": 0, "errors": 0}
